@@ -141,6 +141,7 @@ func checkC20(c *Ctx) {
 
 	c.ruleGoCapturesLoopVar("C20-R5")
 	c.ruleStoreWritesExclusive("C20-R6")
+	c.ruleElementsFilledUnderContainerLock("C20-R7")
 
 	// R3
 	ru3 := c.R.Rule("C20-R3", "no check-then-act across a lock gap: when a function releases a monitor's lock and takes it again, a write to a guarded member in the later critical section is preceded, in that same section, by a fresh read of that member", "E5 critical-section structure", 1)
@@ -385,6 +386,148 @@ func (c *Ctx) ruleGoCapturesLoopVar(id string) {
 }
 
 // ruleStoreWritesExclusive: the replicated stores are written only with their state's mutex held exclusively.
+// ruleElementsFilledUnderContainerLock implements C20-R7: lock coupling between a monitor and the elements of its
+// guarded container. An element (a bucket, itself a monitor) read out of the container may be removed from it by a
+// concurrent sweep as soon as the container's lock is released; a mutating method called on it afterwards fills an
+// orphan: the entry is lost. So every such call is made while the owner's lock is held (any mode), in the function or at
+// all its call sites. Owners that are never instantiated by live code are skipped (the skip list).
+func (c *Ctx) ruleElementsFilledUnderContainerLock(id string) {
+	ru := c.R.Rule(id, "lock coupling: an element read out of a monitor's guarded container (a bucket found in the index of buckets) receives new entries only while that monitor's lock is still held — in the function itself or at every call site of it; once the lock is released a concurrent sweep may have taken the element out of the container, and what is put into it afterwards is never seen again", "E5 lockset at the call site + provenance of the receiver to a read of the guarded container", 1)
+	la := c.lockAnalysis()
+	n := 0
+	for _, m := range la.monitors {
+		// live: allocated in an exported function or in one that has callers
+		live := false
+		for _, f := range c.P.ModFuncs() {
+			for _, b := range f.Blocks {
+				for _, in := range b.Instrs {
+					if al, ok := in.(*ssa.Alloc); ok && types.Identical(derefT(al.Type()), m.named) {
+						top := enclosingTop(f)
+						if top.Object() != nil && top.Object().Exported() || len(c.P.StaticCallers(top)) > 0 {
+							live = true
+						}
+					}
+				}
+			}
+		}
+		if !live {
+			continue
+		}
+		st := m.named.Underlying().(*types.Struct)
+		for i := 0; i < st.NumFields(); i++ {
+			fld := st.Field(i)
+			mi := m.fields[fld.Name()]
+			if mi == nil || mi.guardLock() == "" {
+				continue
+			}
+			var elem types.Type
+			switch t := fld.Type().Underlying().(type) {
+			case *types.Map:
+				elem = t.Elem()
+			case *types.Slice:
+				elem = t.Elem()
+			}
+			if elem == nil {
+				continue
+			}
+			em := c.monitorOf(la.monitors, elem)
+			if _, isPtr := elem.Underlying().(*types.Pointer); !isPtr || em == nil {
+				continue
+			}
+			lockField := mi.guardLock()
+			fromContainer := func(v ssa.Value) bool {
+				ld, ok := v.(*ssa.UnOp)
+				if !ok || ld.Op != token.MUL {
+					return false
+				}
+				fa, ok := ld.X.(*ssa.FieldAddr)
+				return ok && types.Identical(derefT(fa.X.Type()), m.named) && fieldNameOf(fa.X.Type(), fa.Field) == fld.Name()
+			}
+			for _, f := range c.P.ModFuncs() {
+				if c.P.IsGenerated(f) {
+					continue
+				}
+				for _, cl := range core.CallsIn(f) {
+					g := cl.Static
+					if g == nil || g.Signature.Recv() == nil || len(cl.Common.Args) == 0 || !types.Identical(derefT(g.Signature.Recv().Type()), em.named) {
+						continue
+					}
+					if !mutatesReceiver(g, mutMemo) || !addsToReceiver(g) || !depReaches(cl.Common.Args[0], fromContainer) {
+						continue
+					}
+					n++
+					c.R.Fn(c.fname(f))
+					key := fmt.Sprintf("%s called on an element of %s.%s in %s", g.Name(), m.named.Obj().Name(), fld.Name(), c.fname(f))
+					held, why := false, "the lock of the owning "+m.named.Obj().Name()+" is not held"
+					fl := la.locks[f]
+					var owners []ssa.Value
+					for _, p := range f.Params {
+						if types.Identical(derefT(p.Type()), m.named) {
+							owners = append(owners, p)
+						}
+					}
+					for _, fv := range f.FreeVars {
+						if types.Identical(derefT(fv.Type()), m.named) {
+							owners = append(owners, fv)
+						}
+					}
+					for _, o := range owners {
+						if fl != nil && heldFor(fl.before[cl.Instr], core.Term(o), lockField, false) {
+							held = true
+						}
+						if p, ok := o.(*ssa.Parameter); ok && !held {
+							if ok2, w := la.callersHold(f, paramIdx(p), lockField, false, 2, map[*ssa.Function]bool{}); ok2 {
+								held = true
+							} else if w != "" {
+								why += " (" + w + ")"
+							}
+						}
+					}
+					ru.Check(held, key, c.whereI(cl.Instr), "owner's lock held", why+": the element may already have left the container")
+				}
+			}
+		}
+	}
+	ru.Anchor(n > 0, "a mutating call on an element of a guarded container whose elements are monitors")
+}
+
+// addsToReceiver: g appends to its receiver's data a new element whose content comes from g's other parameters (a put,
+// not a removal: removing from an element that has left its container is harmless, adding to it loses the entry).
+func addsToReceiver(g *ssa.Function) bool {
+	for _, cl := range core.CallsIn(g) {
+		if cl.Builtin() != "append" || len(cl.Common.Args) != 2 {
+			continue
+		}
+		sl, ok := core.Strip(cl.Common.Args[1]).(*ssa.Slice)
+		if !ok {
+			continue
+		}
+		arr, ok := sl.X.(*ssa.Alloc)
+		if !ok || arr.Referrers() == nil {
+			continue
+		}
+		for _, r := range *arr.Referrers() {
+			ia, ok := r.(*ssa.IndexAddr)
+			if !ok || ia.Referrers() == nil {
+				continue
+			}
+			for _, rr := range *ia.Referrers() {
+				st, ok := rr.(*ssa.Store)
+				if !ok || st.Addr != ssa.Value(ia) {
+					continue
+				}
+				if depReaches(st.Val, func(v ssa.Value) bool {
+					p, ok := v.(*ssa.Parameter)
+					return ok && p.Parent() == g && paramIdx(p) > 0
+				}) {
+					return true
+				}
+			}
+		}
+	}
+	return false
+}
+
 func (c *Ctx) ruleStoreWritesExclusive(id string) {
 	ru := c.R.Rule(id, "every write to a replicated store (sessions map, subscription trie, retained trie) is made with the state's mutex held exclusively, in the routine itself or at every call site of the helper that makes it: look-up, comparison and overwrite of an entry form one critical section (under a read lock two merges of different generations of one entry can both pass the comparison, and the older one is written last)", "E5 lockset with exclusiveness, helpers judged at their call sites", 3)
 	ru0 := c.R.Rule(id+"-anchors", "anchors", "", 0)
